@@ -277,7 +277,7 @@ def build_harness(ctx):
     with Lock("cargo-" + ctx.key):
         hd = harness_dir(ctx)
         os.makedirs(hd, exist_ok=True)
-        rc, out = sh(["rsync", "-a", "--delete", "--exclude", "target", "--exclude", "src/mods.rs", "--exclude", "Cargo.lock",
+        rc, out = sh(["rsync", "-a", "--delete", "--exclude", "target", "--exclude", "src/mods.rs",
                       os.path.join(VERIF, "harness") + "/", hd + "/"])
         if rc != 0:
             raise RuntimeError(out)
@@ -285,10 +285,6 @@ def build_harness(ctx):
         mp = os.path.join(hd, "src", "mods.rs")
         if not os.path.exists(mp) or open(mp).read() != mods:
             open(mp, "w").write(mods)
-        lock_src = os.path.join(ctx.repo, "Cargo.lock")
-        lp = os.path.join(hd, "Cargo.lock")
-        if not os.path.exists(lp):
-            shutil.copy2(lock_src, lp)
         tdir = os.path.join(ctx.bdir, "harness-target")
         rc, out = sh(["cargo", "build", "--offline", "-q"], cwd=hd, env={"CARGO_TARGET_DIR": tdir}, timeout=1800)
     if rc != 0:
@@ -395,6 +391,8 @@ def load_known():
 
 
 def write_replay(ctx, payload):
+    if getattr(ctx, "replay_path", None):
+        return ctx.replay_path
     d = os.path.join(VERIF, "replays")
     os.makedirs(d, exist_ok=True)
     n = 0
@@ -413,6 +411,8 @@ def write_replay(ctx, payload):
 
 
 def write_evidence(ctx, coverage, violations, assumptions):
+    if getattr(ctx, "replay_path", None):
+        return None
     d = os.path.join(VERIF, "evidence")
     os.makedirs(d, exist_ok=True)
     ev = {
@@ -463,6 +463,10 @@ class Case:
 
 def run_check(prop, tier, repo=None, replay=None):
     ctx = Ctx(prop, tier, repo=repo)
+    if replay is not None:
+        ctx.replay_path = replay.get("_path")
+        if "seed" in replay and not os.environ.get("VERIF_SEED"):
+            ctx.seed = replay["seed"]
     mod = load_prop_module(prop)
     try:
         return _run_check(ctx, mod, replay)
